@@ -60,8 +60,9 @@ func (c *MetricStatSlot) OnCompleted(ctx *base.EntryContext) {
 		breaker := nodeBreakers[address]
 		breaker.OnRequestComplete(ctx.Rt(), err)
 		if err == nil {
-			recycler := getRecyclerOfResource(res)
-			recycler.recover(address)
+			if recycler := getRecyclerOfResource(res); recycler != nil {
+				recycler.recover(address)
+			}
 		}
 	}
 }
